@@ -171,6 +171,7 @@ pub fn c08() -> Check {
         nontrivial: |s| s.verify_unlinked >= 1 && s.reopens >= 1 && s.merges + s.gcs >= 1,
     })
     .part(crate::crash::CrashEnum { name: "crash-in-cleanup", focus: crate::crash::Focus::CleanUp, quick: 8, thorough: 35, quick_points: 60 })
+    .pbt(crate::threads::ThreadedFiles)
 }
 
 pub fn c07() -> Check {
